@@ -44,6 +44,11 @@ class Pattern(Serialize, ABC):
         self.flags = frozenset(flags)
         self.raw = raw
 
+    def _deserialize(self):
+        # Serialization stores the flags as a list. Restore the set, so that
+        # flag comparisons (e.g. subset tests) keep their meaning after loading.
+        self.flags = frozenset(self.flags)
+
     def __repr__(self):
         return repr(self.to_regexp())
 
